@@ -2,6 +2,7 @@
 import FfcxModel.LNodes.Wire
 import FfcxModel.LNodes.Scalars
 import FfcxModel.LNodes.ShapeDomain
+import FfcxModel.LNodes.Reads
 
 namespace Ffcx.Driver
 open Ffcx Ffcx.LNodes
@@ -63,5 +64,23 @@ def handleExec (args : List Sexp) : Except String Sexp := do
       | .ok _ => return .list [.atom "ok"]
     | m => throw s!"bad mode {m}"
   | _ => throw "exec: expected (exec mode stmt inputs outs)"
+
+/-- `(reads W stmt inputs)` → `(ok i…)`: sorted distinct indices of `W` read by the run over the
+    shape domain; `(ok unknown i…)` if some subscript could not be evaluated. -/
+def handleReads (args : List Sexp) : Except String Sexp := do
+  match args with
+  | [w, stmt, inputs] =>
+    let s ← readStmt stmt
+    let σ ← readInputs (R := U) (fun _ => ⟨⟩) (← inputs.asList)
+    match execReads uExtra (← w.asAtom) s σ with
+    | .error e => return errToSexp e
+    | .ok (_, rs) =>
+      let known := (rs.filterMap id).toArray.qsort (· < ·)
+      let mut out : Array Int := #[]
+      for v in known do
+        if out.isEmpty || out.back! != v then out := out.push v
+      let unk := rs.any Option.isNone
+      return .list ((.atom "ok") :: (if unk then [.atom "unknown"] else []) ++ out.toList.map Sexp.ofInt)
+  | _ => throw "reads: expected (reads W stmt inputs)"
 
 end Ffcx.Driver
